@@ -4,6 +4,7 @@ CONSTANTS
   SinglePassWhenNested = TRUE
   N = 1
   Kinds <- KindsAll
+  Clips = FALSE
   MaxChain = 66
 INVARIANTS OkIsBalanced ErrorsNamed WorkBound CaseDump
 CHECK_DEADLOCK FALSE
